@@ -567,6 +567,13 @@ def run_c16(prop, tier, seed, t0):
         for par in ("even", "odd"):
             jobs.append(Job(f"{c}/{par}/rd:0", [exe, "readers", "--seed", str(seed), "--count", rcount, "--digest", "--parity", par], build=c, timeout=2400))
             jobs.append(Job(f"{c}/{par}/wr:0", [exe, "writers", "--seed", str(seed), "--count", rcount, "--digest", "--parity", par], build=c, timeout=2400))
+    # exhaustive fragmentation enumeration (every cut set of short sequences x 7 wrappers x every pair of ops incl.
+    # over-long requests): which calls panic must not depend on the profile
+    fl = "4" if quick else "6"
+    for c in ["dbg", "rel", "dbg-xp", "rel-xp"]:
+        exe = binpath(c, "bufconf")
+        for s in range(4):
+            jobs.append(Job(f"{c}/-/frag:{s}", [exe, "frag", "--maxlen", fl, "--shard", str(s), "--nshards", "4", "--digest", "--parity", ["even", "odd"][s % 2]], build=c, timeout=2400))
     # io::Cursor sweep (positions up to u64::MAX, counts up to usize::MAX): overflow checks on / off natively,
     # 64- vs 32-bit under Miri. Counts are expressed relative to usize::MAX, so outcomes must agree.
     for c in ["dbg", "rel", "dbg-xp", "rel-xp"]:
@@ -624,7 +631,7 @@ def run_c16(prop, tier, seed, t0):
     if compared:
         agg.samples.insert(0, f"{compared} (stream, case) keys compared across up to {agg.counters['configurations']} configurations, e.g. " + "; ".join(f"{k[0]}:{k[1]} -> {sorted(set(v.values()))[0]} in {len(v)} configs" for k, v in list(sorted(table.items()))[:3]))
     rule = ("the same seeded histories (seqdrive walks: general, with out-of-contract calls, BytesMut-centred, both) are executed in {debug, release} x {default, no-default-features, extra-platforms} x {even, odd} buffer-address parity and a per-history digest of all observable results "
-            "(contents, lengths, capacities, is_unique/try_reclaim/getter return values, which calls panicked; never addresses or messages) is compared for equality; likewise per-case outcome digests of the reader and writer conformance engines, of the io::Cursor position/count sweep (also Miri host vs i686) and per-row digests of the getter table across {dbg, rel} x {default, extra-platforms} x parity, and for seeded slices of it under Miri host / i686 (32-bit) / s390x (big-endian, _ne rows excluded). "
+            "(contents, lengths, capacities, is_unique/try_reclaim/getter return values, which calls panicked; never addresses or messages) is compared for equality; likewise per-case outcome digests of the reader and writer conformance engines, of the exhaustive fragmentation enumeration (every pair of cursor ops incl. over-long requests on every cut set of short sequences under 7 wrappers), of the io::Cursor position/count sweep (also Miri host vs i686) and per-row digests of the getter table across {dbg, rel} x {default, extra-platforms} x parity, and for seeded slices of it under Miri host / i686 (32-bit) / s390x (big-endian, _ne rows excluded). "
             "evaluations = (stream, case) keys compared; a cell = stream x number of configurations x agreement x bucket.")
     return finish(prop, tier, seed, agg, t0, "exploration", rule, min_eval_key="digest_keys_compared",
                   assumptions=["the generators make the same choices in every configuration (choices depend on model state, lengths and capacities only); a divergence in choices shows up as a digest difference and is investigated as such",
